@@ -1324,6 +1324,8 @@ rrul_fill_wly(echs_instant_t *restrict tgt, size_t nti, rrulsp_t rr)
 	unsigned int maxd;
 	/* increments induced by wd_mask */
 	uint_fast32_t wd_incs = 0UL;
+	/* whether we've got to pick instances of a week by BYSETPOS */
+	const bool posp = bi383_has_bits_p(&rr->pos);
 	struct enum_s e;
 
 	if (UNLIKELY((unsigned int)rr->count < nti)) {
@@ -1422,6 +1424,25 @@ rrul_fill_wly(echs_instant_t *restrict tgt, size_t nti, rrulsp_t rr)
 		unsigned int this_d = d;
 		unsigned int this_m = m;
 		unsigned int this_y = y;
+		/* for BYSETPOS, the number of instances in this week and
+		 * the number of days so far, both with BYMONTH's consent */
+		size_t nset = 0U;
+		size_t nday = 0U;
+
+		if (UNLIKELY(posp)) {
+			/* a week stretches over 2 months at most */
+			const unsigned int nxt_m = m % 12U + 1U;
+			unsigned int k = 0U;
+
+			do {
+				k += incs & 0b1111U;
+				if (m_mask & (1U << (d + k > maxd ? nxt_m : m))) {
+					nset++;
+				}
+			} while ((incs >>= 4U));
+			nset *= e.nH * e.nM * e.nS;
+			incs = wd_incs;
+		}
 
 		do {
 			this_d += incs & 0b1111U;
@@ -1442,6 +1463,9 @@ rrul_fill_wly(echs_instant_t *restrict tgt, size_t nti, rrulsp_t rr)
 			if (UNLIKELY(this_y > WLY_DLY_MAX_YEAR)) {
 				/* nothing's going to match anymore */
 				goto fin;
+			}
+			if (m_mask & (1U << this_m)) {
+				nday++;
 			}
 
 			for (ENUM_INIT(e, iS, iM, iH);
@@ -1466,6 +1490,14 @@ rrul_fill_wly(echs_instant_t *restrict tgt, size_t nti, rrulsp_t rr)
 					/* skip this day, the rest of the week
 					 * might be in the next month already */
 					break;
+				} else if (UNLIKELY(posp) &&
+					   !pos_match_p(
+						   &rr->pos,
+						   (((nday - 1U) * e.nH + iH) *
+						    e.nM + iM) * e.nS + iS + 1U,
+						   nset)) {
+					/* not one of the chosen instances */
+					continue;
 				}
 				/* attach scale and convert back to greg */
 				x = echs_instant_attach_scale(x, srcsca);
